@@ -90,7 +90,7 @@ fn settings_total<const N: usize>() {
                 }
                 k += 1;
             }
-            kani::cover!(seen[4] && seen[5], "H3_DATAGRAM and ENABLE_WEBTRANSPORT present");
+            kani::cover!(seen[4] && seen[0], "H3_DATAGRAM and QPACK_MAX_TABLE_CAPACITY present");
             kani::cover!(grease_n > 0, "GREASE setting accepted");
             kani::cover!(len == N && !seen[0] && !seen[1] && !seen[2] && !seen[3] && !seen[4] && !seen[5] && !seen[6] && grease_n == 0, "only unknown settings: ignored");
         }
@@ -286,7 +286,7 @@ fn m_settings_roundtrip() {
     core::mem::forget(s);
 }
 
-// @h props=C11,C13,C14 tier=quick t=300 expect=fail sub=twin
+// @h props=C11,C13,C14 tier=quick t=900 expect=fail sub=twin
 // @fn wtransport-proto/src/settings.rs Settings::with_frame
 // @bound twin: claims no 2-byte SETTINGS payload is accepted; must be refuted
 #[kani::proof]
